@@ -122,6 +122,9 @@ def run(tier: str, seed: int) -> int:
                                     desc.append("ddf[['id', 'geometry']]" if h % 2 else "persist()")
                                 else:
                                     final = hs
+                            if h % 5 == 0:
+                                ddf = ddf.build_sindex(page_size=1 + h % 3)          # per-partition indexes: results must not change
+                                desc.append("build_sindex()")
                             if not isinstance(ddf, DaskGeoDataFrame):
                                 chk.violation(f"type|{kind}", " ; ".join(desc) + f"\n  is a {type(ddf).__name__}", "# " + " ; ".join(desc), ctx=dict(site="dask", mode="type"))
                                 continue
@@ -138,6 +141,12 @@ def run(tier: str, seed: int) -> int:
                                 desc.append(f"{op}[{axis(key[0])!r}, {axis(key[1])!r}]")
                                 res = getattr(ddf, op)[axis(key[0]), axis(key[1])].compute()
                                 got = list(res["id"])
+                                if op == "cx" and h % 4 == 1:
+                                    # the same query through the geometry SERIES of the frame
+                                    sres = ddf.geometry.cx[axis(key[0]), axis(key[1])].compute()
+                                    if list(sres.index) != list(res.index):
+                                        chk.violation(f"seriescx|{kind}", " ; ".join(desc) + f"\n  DaskGeoSeries.cx selects index {list(sres.index)}, the frame's cx {list(res.index)}",
+                                                      "# " + " ; ".join(desc), ctx=dict(site="dask.series.cx", kind=kind))
                                 if out["unspec"]:
                                     continue
                                 want = [cur_ids[q - 1] for q in out["want"]]
